@@ -414,6 +414,65 @@ func runMarginProduct() {
 		})
 }
 
+// runSizeProduct: the full (width, height) square for each writer on symbols of every aspect
+// (square, landscape rectangle) — a request may be smaller than the symbol on one axis and larger
+// on the other in either orientation.
+func runSizeProduct() {
+	type job struct {
+		w       int
+		content string
+		hints   map[gozxing.EncodeHintType]interface{}
+		label   string
+	}
+	var jobs []job
+	for wi, wd := range writers {
+		jobs = append(jobs, job{wi, wd.content, nil, "default"})
+		jobs = append(jobs, job{wi, altContent(wd), nil, "alt"})
+	}
+	rect := map[gozxing.EncodeHintType]interface{}{gozxing.EncodeHintType_DATA_MATRIX_SHAPE: dmenc.SymbolShapeHint_FORCE_RECTANGLE}
+	for _, c := range []string{"A", "ABCDE", "hello, you", "0123456789012345678901234567890", rep("x", 40)} {
+		jobs = append(jobs, job{1, c, rect, "rect"}, job{1, c, nil, "auto"})
+	}
+	chk.Range("full product: requested width 0..2*max(symbol width,height)+3 x height likewise (1-D: height 0..12), every writer x 2 contents, Data Matrix also x 5 contents x {automatic, forced rectangle}", len(jobs),
+		func(i int) string {
+			return fmt.Sprint(writers[jobs[i].w].name, " ", jobs[i].label, " ", abbreviate(jobs[i].content))
+		},
+		func(l *mc.Local, i int) {
+			j := jobs[i]
+			wd := writers[j.w]
+			hb := map[gozxing.EncodeHintType]interface{}{gozxing.EncodeHintType_MARGIN: 0}
+			for k, v := range j.hints {
+				hb[k] = v
+			}
+			bare, err := wd.mk().Encode(j.content, wd.format, 0, 0, hb)
+			if err != nil || bare == nil {
+				return
+			}
+			mx := bare.GetWidth()
+			if bare.GetHeight() > mx {
+				mx = bare.GetHeight()
+			}
+			maxW, maxH := 2*mx+3, 2*mx+3
+			if wd.kind == "1d" {
+				maxH = 12
+				maxW = bare.GetWidth() + 40
+			}
+			if wd.kind == "qr" {
+				maxW, maxH = mx+20, mx+20
+			}
+			for w := 0; w <= maxW; w++ {
+				for h := 0; h <= maxH; h++ {
+					c := concrete{wd: wd, format: wd.format, content: j.content, w: w, h: h, hints: map[gozxing.EncodeHintType]interface{}{},
+						labels: map[string]string{"width": fmt.Sprint(w), "height": fmt.Sprint(h), "shape": j.label}}
+					for k, v := range j.hints {
+						c.hints[k] = v
+					}
+					run(l, c, "size")
+				}
+			}
+		})
+}
+
 func altContent(wd writerDef) string {
 	switch wd.name {
 	case "QR":
@@ -518,6 +577,7 @@ func main() {
 	runShortStrings()
 	runCode128Product()
 	runMarginProduct()
+	runSizeProduct()
 	runDeviations(axes)
 	chk.Sample("call", call{Writer: "QR", Format: int(gozxing.BarcodeFormat_QR_CODE), CLabel: `"HELLO"`, W: "0", H: "0", Hints: map[string]string{"MARGIN": "-5"}})
 	chk.Sample("call", call{Writer: "Code128", Format: int(gozxing.BarcodeFormat_CODE_128), CLabel: `"1ñ2"`, W: "0", H: "0", Hints: map[string]string{"FORCE_CODE_SET": "C"}})
